@@ -16,7 +16,7 @@ RULE = ('the union of the C03-C12 workloads (permitted API histories only) on se
         'tokens: a deterministic stand-in for MSan); a destroyed non-reentrant scanner behaves like a fresh process. '
         'distinct = event-log hash, non-trivial = >= 2 tokens and >= 3 allocator calls')
 TIERS = {
-    'quick': {'scenarios': 48, 'plans': 60, 'wall_cap': 600},
+    'quick': {'scenarios': 80, 'plans': 100, 'wall_cap': 600},
     'thorough': {'scenarios': 5000, 'plans': 150, 'wall_cap': 3300},
 }
 COMPONENTS = sb.COMPONENTS
@@ -28,7 +28,7 @@ CLASSES = {'sanitizer', 'crash', 'ledger', 'leak', 'junk-dependence', 'reuse', '
 
 def gen_scn(rng, idx=0):
     tables = scenario.TABLE_OPTS[idx % len(scenario.TABLE_OPTS)]
-    return scenario.gen_scenario(rng, want={'flavors': ['nr', 'nr', 'r', 'r', 'c99', 'cxx'], 'tables': tables})
+    return scenario.gen_scenario(rng, want={'flavors': ['nr', 'nr', 'r', 'r', 'c99', 'c99', 'cxx', 'cxx'], 'tables': tables})
 
 
 def gen_plan(rng, sc):
